@@ -3,6 +3,8 @@
 package state
 
 import (
+	"time"
+
 	vf "github.com/mycoria/mycoria/zzvf"
 )
 
@@ -41,4 +43,15 @@ func VfC04KeyAgreement() {
 	vf.Assert(clout == slin && slout == clin, "link-keys-do-not-match")
 	vf.Assert(clin != clout, "link-directions-share-a-key")
 	vf.Reach("agreed")
+}
+
+// VfClock is the logical clock of the C04 session harness: honest routers
+// stamp their frames in creation order (concrete, strictly increasing).
+var VfClock func() time.Time
+
+// vfClockNext models TimeSequenceHandler.Next with that clock.
+func vfClockNext(sh *TimeSequenceHandler) time.Time {
+	t := VfClock()
+	sh.out = t
+	return t
 }
